@@ -398,6 +398,10 @@ macro_rules! tuple_dom {
             }
             fn to_val(&self) -> Val { Val::Seq(vec![$(self.$i.to_val()),*]) }
         }
+        impl<T: Dom> EpsView for ($(tuple_dom!(@t $i T),)*) {
+            fn eps_val(&self) -> Val { self.to_val() }
+            fn spans(&self, _out: &mut Vec<Span>) {}
+        }
     };
     (@t $i:tt $t:ident) => { $t };
 }
